@@ -1685,7 +1685,11 @@ decode_huffman_code_block_stateless_base(struct inflate_state *state, uint8_t *s
                                         return ISAL_END_INPUT;
                                 }
 
-                                if (state->next_out - look_back_dist < start_out)
+                                /* Literals of the same lookup that did not fit into the
+                                 * output are not in the buffer yet but are history the
+                                 * distance may refer to */
+                                if (state->next_out + state->write_overflow_len - look_back_dist <
+                                    start_out)
                                         return ISAL_INVALID_LOOKBACK;
 
                                 if (state->avail_out < repeat_length) {
@@ -2163,6 +2167,8 @@ isal_inflate_stateless(struct inflate_state *state)
         state->total_out = 0;
         state->hist_bits = 0;
         state->tmp_in_size = 0;
+        state->write_overflow_lits = 0;
+        state->write_overflow_len = 0;
 
         if (state->crc_flag == IGZIP_GZIP) {
                 struct isal_gzip_header gz_hdr;
